@@ -716,3 +716,113 @@ func replayCaseOrder(rc *runCtx, h *harness, v *interp.Violation, file string) (
 	}
 	return false, "native: every reported clause is a type implementing an earlier interface case"
 }
+
+// ---- C14 analyzer parameters: native confirmation with the real analyzer and the real
+// hugeParam checker: two passes in one process (checker cache disabled), the flag set to
+// the model's values; the diagnostics of the second pass must be those of a fresh
+// process given the second value.
+const analyzerParamTest = `package analyzer
+
+import (
+	"fmt"
+	"go/ast"
+	"go/importer"
+	"go/parser"
+	"go/token"
+	"go/types"
+	"os"
+	"strconv"
+	"testing"
+
+	_ "github.com/go-critic/go-critic/checkers"
+	"golang.org/x/tools/go/analysis"
+)
+
+func TestGSXAnalyzerParam(t *testing.T) {
+	v1, _ := strconv.Atoi(os.Getenv("GSX_V1"))
+	v2, _ := strconv.Atoi(os.Getenv("GSX_V2"))
+	size := (v1 + v2) / 2 // a parameter whose size lies between the two thresholds tells them apart
+	src := "package p\n\ntype big struct{ a [" + strconv.Itoa(size) + "]byte }\n\nfunc f(x big) {}\n"
+	run := func() int {
+		fset := token.NewFileSet()
+		f, err := parser.ParseFile(fset, "p.go", src, 0)
+		if err != nil {
+			t.Fatal(err)
+		}
+		info := &types.Info{Types: map[ast.Expr]types.TypeAndValue{}, Defs: map[*ast.Ident]types.Object{}, Uses: map[*ast.Ident]types.Object{},
+			Implicits: map[ast.Node]types.Object{}, Selections: map[*ast.SelectorExpr]*types.Selection{}, Scopes: map[ast.Node]*types.Scope{}}
+		pkg, err := (&types.Config{Importer: importer.Default()}).Check("p", fset, []*ast.File{f}, info)
+		if err != nil {
+			t.Fatal(err)
+		}
+		n := 0
+		pass := &analysis.Pass{Analyzer: Analyzer, Fset: fset, Files: []*ast.File{f}, Pkg: pkg, TypesInfo: info, TypesSizes: types.SizesFor("gc", "amd64"),
+			Report: func(analysis.Diagnostic) { n++ }}
+		if _, err := Analyzer.Run(pass); err != nil {
+			t.Fatal(err)
+		}
+		return n
+	}
+	DisableCache = true
+	Analyzer.Flags.Set("enable", "hugeParam")
+	Analyzer.Flags.Set("disable", "")
+	// the parameter is reported iff its size reaches the threshold
+	want := func(v int) int {
+		if size >= v {
+			return 1
+		}
+		return 0
+	}
+	Analyzer.Flags.Set("@hugeParam.sizeThreshold", strconv.Itoa(v1))
+	n1 := run()
+	Analyzer.Flags.Set("@hugeParam.sizeThreshold", strconv.Itoa(v2))
+	n2 := run()
+	if n1 != want(v1) || n2 != want(v2) {
+		fmt.Printf("GSX-PARAM-DIFF a parameter of the size between the thresholds: threshold %d gives %d diagnostic(s) (expected %d); then threshold %d in the same process gives %d (expected %d)\n", v1, n1, want(v1), v2, n2, want(v2))
+		return
+	}
+	fmt.Println("GSX-PARAM-SAME")
+}
+`
+
+func replayAnalyzerParam(rc *runCtx, h *harness, v *interp.Violation, file string) (bool, string) {
+	if v.Kind == "panic" {
+		return false, "harness"
+	}
+	get := func(k string) int64 {
+		if mv, ok := v.Model[k+"?i"]; ok && mv.I != nil {
+			return mv.I.Int64()
+		}
+		return 0
+	}
+	// the harness checker's default is 7, hugeParam's is 80: a model value equal to the
+	// default (the interesting boundary) is translated to the real checker's default
+	conv := func(x int64) int64 {
+		if x == 7 {
+			return 80
+		}
+		if x == 80 {
+			return 7
+		}
+		return x
+	}
+	v1, v2 := conv(get("flag in pass 1")), conv(get("flag in pass 2"))
+	tmp, err := os.MkdirTemp("", "gsx-aparam-")
+	if err != nil {
+		return false, err.Error()
+	}
+	defer os.RemoveAll(tmp)
+	tf := filepath.Join(tmp, "zz_verif_aparam_test.go")
+	os.WriteFile(tf, []byte(analyzerParamTest), 0o644)
+	out, err := runGoTest(tmp, map[string]string{filepath.Join(repoDir, "checkers", "analyzer", "zz_verif_aparam_test.go"): tf},
+		[]string{"-v", "-vet=off", "-count=1", "-run", "^TestGSXAnalyzerParam$", "./checkers/analyzer"}, []string{fmt.Sprintf("GSX_V1=%d", v1), fmt.Sprintf("GSX_V2=%d", v2)})
+	if err != nil {
+		return false, err.Error()
+	}
+	for _, l := range strings.Split(out, "\n") {
+		if strings.HasPrefix(l, "GSX-PARAM-DIFF") {
+			return true, strings.TrimPrefix(l, "GSX-PARAM-DIFF ")
+		}
+	}
+	return false, "native: both passes use the value of their flag (" + lastLines(out, 2) + ")"
+}
